@@ -1631,7 +1631,7 @@ func (_neg) exec(vm *vm) {
 		if !math.IsNaN(f) {
 			f = -f
 		}
-		result = valueFloat(f)
+		result = floatToValue(f)
 	}
 
 	vm.stack[vm.sp-1] = result
@@ -1660,7 +1660,7 @@ func (_inc) exec(vm *vm) {
 	case valueInt:
 		v = intToValue(int64(n + 1))
 	default:
-		v = valueFloat(n.ToFloat() + 1)
+		v = floatToValue(n.ToFloat() + 1)
 	}
 
 	vm.stack[vm.sp-1] = v
@@ -1680,7 +1680,7 @@ func (_dec) exec(vm *vm) {
 	case valueInt:
 		v = intToValue(int64(n - 1))
 	default:
-		v = valueFloat(n.ToFloat() - 1)
+		v = floatToValue(n.ToFloat() - 1)
 	}
 
 	vm.stack[vm.sp-1] = v
